@@ -12,6 +12,8 @@ TRUSTED_BASE = ["harness/detsched.py (deterministic scheduler), harness/engine_c
 
 def run(ctx):
     outcome_under_every_progress(ctx)
+    falsy_results_under_retry(ctx)
+    interrupted_is_not_success(ctx)
     engine_corr.campaign(ctx, {"C04"})
     planlevel.plan_campaign(ctx, {"C04"})
     import prune_corr
@@ -103,3 +105,105 @@ def outcome_under_every_progress(ctx):
                     ctx.fail("outcome-under-progress", "progress=%s, %s: run %s having executed %r; expected %s and %r - a run that returns normally must have executed every "
                              "needed call exactly once" % (name, "the third of four chained calls fails" if failing else "no call fails", oc, executed, want_oc, want_exec),
                              {"progress": name, "failing": failing, "max_workers": workers})
+
+
+def falsy_results_under_retry(ctx):
+    """Calls whose (successful) result is None / 0 / "" / False / an empty container, under every retry setting (none, an int, a user
+    decorator): a successful run executes each needed call exactly once - a result is a result, whatever its truth value."""
+    import threading
+    uberjob = core.use_repo()
+    results = {"None": None, "0": 0, "empty str": "", "False": False, "empty list": [], "empty dict": {}, "7": 7}
+
+    def twice(fn):
+        def wrapper(*a, **k):
+            try:
+                return fn(*a, **k)
+            except Exception:      # noqa
+                return fn(*a, **k)
+        return wrapper
+    for rname, retry in (("None", None), ("1", 1), ("2", 2), ("3", 3), ("a user decorator", twice)):
+        for workers in (1, 4):
+            for scheduler in ("default", "random"):
+                count, lock = {}, threading.Lock()
+
+                def mk(name, layer):
+                    def f(*a):
+                        with lock:
+                            count[(name, layer)] = count.get((name, layer), 0) + 1
+                        return results[name]
+                    return f
+                plan = uberjob.Plan()
+                first = {n: plan.call(mk(n, 1)) for n in results}
+                second = {n: plan.call(mk(n, 2), *first.values()) for n in results}
+                ctx.case(("falsy-results-under-retry", rname, workers, scheduler))
+                try:
+                    got = uberjob.run(plan, output=list(second.values()), retry=retry, max_workers=workers, scheduler=scheduler, progress=None)
+                    oc = None if got == [results[n] for n in second] else "returned %r" % (got,)
+                except BaseException as e:      # noqa
+                    oc = "raised %s: %r" % (type(e).__name__, getattr(e, "__cause__", None))
+                wrong = {"%s (layer %d)" % n: c for n, c in count.items() if c != 1}
+                if oc or wrong or len(count) != 14:
+                    ctx.fail("falsy-results-under-retry", "retry=%s, max_workers=%d, scheduler=%s, 14 calls returning None / 0 / '' / False / [] / {} / 7: %s; executions per call other than 1: %r"
+                             % (rname, workers, scheduler, oc or "the run succeeded", wrong), {"retry": rname, "max_workers": workers, "scheduler": scheduler})
+
+
+def interrupted_is_not_success(ctx):
+    """Ctrl-C (a real SIGINT to the calling thread, sent from inside the k-th call) while the run is under way: the run may raise
+    KeyboardInterrupt - but if it RETURNS normally it claims success, and then every call the output depends on was executed exactly once."""
+    import signal
+    import threading
+    import time
+    uberjob = core.use_repo()
+    if threading.current_thread() is not threading.main_thread():
+        ctx.notes["interrupted_is_not_success"] = "skipped: the check does not run on the main thread"
+        return
+    old = signal.getsignal(signal.SIGINT)
+    try:
+        for workers in (1, 3):
+            for k in (0, 2):
+                for shape in ("chain", "independent"):
+                    n = 8
+                    count, lock = {}, threading.Lock()
+
+                    def mk(i):
+                        def f(*a):
+                            with lock:
+                                count[i] = count.get(i, 0) + 1
+                                me = sum(count.values()) - 1
+                            if me == k:
+                                time.sleep(0.25)     # the pool has finished starting (the start-up window is finding F6, judged under C17): the caller waits in queue.join()
+                                signal.pthread_kill(threading.main_thread().ident, signal.SIGINT)
+                                time.sleep(0.15)
+                            return i
+                        return f
+                    plan = uberjob.Plan()
+                    calls = []
+                    for i in range(n):
+                        calls.append(plan.call(mk(i), *(calls[-1:] if shape == "chain" else [])))
+                    ctx.case(("interrupted-is-not-success", workers, k, shape))
+                    try:
+                        try:
+                            got = uberjob.run(plan, output=calls, max_workers=workers, progress=None)
+                            oc = "returned"
+                            time.sleep(0.2)      # a late interrupt is absorbed here, not in the next trial
+                        except KeyboardInterrupt:
+                            oc = "interrupted"
+                        except BaseException as e:      # noqa
+                            oc = "raised %s" % type(e).__name__
+                    except KeyboardInterrupt:
+                        oc = "interrupted"
+                    ctx.count("interrupted_is_not_success_outcome", oc)
+                    wrong = {i: count.get(i, 0) for i in range(n) if count.get(i, 0) != 1}
+                    if oc == "returned" and (wrong or got != list(range(n))):
+                        ctx.fail("interrupted-but-returned", "Ctrl-C from inside call number %d of %d (%s, max_workers=%d): run returned normally (%r) although executions per call are %r"
+                                 % (k + 1, n, shape, workers, got, {i: count.get(i, 0) for i in range(n)}), {"max_workers": workers, "k": k, "shape": shape})
+                    over = {i: c for i, c in count.items() if c > 1}
+                    if over:
+                        ctx.fail("interrupted-executed-twice", "Ctrl-C from inside call number %d (%s, max_workers=%d): calls executed more than once: %r" % (k + 1, shape, workers, over),
+                                 {"max_workers": workers, "k": k, "shape": shape})
+                    signal.signal(signal.SIGINT, old if callable(old) or old in (signal.SIG_DFL, signal.SIG_IGN) else signal.default_int_handler)
+    finally:
+        try:
+            signal.signal(signal.SIGINT, old)
+        except (TypeError, ValueError):
+            pass
